@@ -100,7 +100,9 @@ def budget(tier):
 
 
 def strategy(tier):
-    return st.integers(0, 2).flatmap(lambda k: scenario(P_ENGINE) if k == 0 else scs)
+    from bvt.props._scen import with_wal
+
+    return st.integers(0, 2).flatmap(lambda k: with_wal(scenario(P_ENGINE), 4) if k == 0 else scs)
 
 
 def run_case(sc):
